@@ -143,3 +143,27 @@ def f10b_multi_do_descendant(v, f):
     """joint intervention whose default (parent) adjustment set contains a descendant of another do-variable"""
     d = v.get("detail") or {}
     return bool(d.get("multi_do") and d.get("default_adjustment_contains_descendant_of_do"))
+
+
+@predicate
+def f40_torch_float32_truncation(v, f):
+    """torch back end, float64 dtype: the answer equals the reference up to float32 quantisation of the input tables
+    (relative 2^-24 per entry => absolute error far below 1e-6 on these models); anything larger is still a violation"""
+    import re
+
+    if "torch,float64]" not in str(v.get("site")):
+        return False
+    txt = str(v.get("expected")) + " " + str(v.get("observed"))
+    m = re.search(r"([-+0-9.e]+)r? != ([-+0-9.e]+)", txt)
+    if m:
+        try:
+            return abs(float(m.group(1)) - float(m.group(2))) < 1e-6
+        except ValueError:
+            return False
+    try:  # numeric observed / expected records (get_state_probability, predict_probability)
+        o = float(v.get("observed"))
+        e = v.get("expected")
+        e = float(e["exp"]) if isinstance(e, dict) else float(e)
+        return abs(o - e) < 1e-6
+    except Exception:
+        return False
